@@ -237,8 +237,15 @@ class Concatenator(Group):  # pylint: disable=too-many-public-methods
         if not copy_children or self.concatenated_attributes is None:
             return new_entity
 
+        # the records can only be taken over as they are when their identifiers are free there
+        in_use = any(
+            isinstance(str2uuid(elem.get("ID")), uuid.UUID)
+            and new_entity.workspace.find_entity(str2uuid(elem.get("ID")))
+            for elem in self.concatenated_attributes["Attributes"]
+        )
+
         if (
-            mask is None and new_entity.workspace != self.workspace
+            mask is None and new_entity.workspace != self.workspace and not in_use
         ):  # Fast copy to new workspace
             # the copy keeps its own records: the two groups are edited independently
             new_entity.concatenated_attributes = deepcopy(self.concatenated_attributes)
